@@ -3303,7 +3303,23 @@ class QuicConnection:
             frame_type = QuicFrameType.PADDING
             reason_phrase = ""
 
+        # the reason phrase is only informative: truncate it (at a character
+        # boundary) so that the frame always fits into the packet
         reason_bytes = reason_phrase.encode("utf8")
+        max_reason_length = max(
+            0,
+            builder.remaining_buffer_space
+            - (
+                APPLICATION_CLOSE_FRAME_CAPACITY
+                if frame_type is None
+                else TRANSPORT_CLOSE_FRAME_CAPACITY
+            ),
+        )
+        if len(reason_bytes) > max_reason_length:
+            reason_phrase = reason_bytes[:max_reason_length].decode(
+                "utf8", errors="ignore"
+            )
+            reason_bytes = reason_phrase.encode("utf8")
         reason_length = len(reason_bytes)
 
         if frame_type is None:
